@@ -445,7 +445,7 @@ Theorem documented_sentences :
   says doc_text_constraint_mean_width "If Width axis is reduced its shape must be no greater than ." /\
   says doc_text_constraint_mean_depth "If Depth axis is reduced its shape must be no greater than ." /\
   says doc_text_constraint_argmax_depth "IFM depth must be no greater than ".
-Proof. unfold says. repeat split; vm_compute; reflexivity. Qed.
+Proof. unfold says. repeat (match goal with |- _ /\ _ => split end); vm_compute; reflexivity. Qed.
 
 (* ------------------------------------------------------------------------------------------------------------ *)
 (* the drivers and the report                                                                                    *)
